@@ -79,7 +79,7 @@ def _items(c: Chooser, n, serial0):
 
 def generate(rng, cfg: Dict) -> Dict:
     c = Chooser(rng)
-    mode = c.weighted([("single", 4), ("multi", 4), ("general", 4), ("endless", 2)])
+    mode = c.weighted([("single", 4), ("multi", 4), ("general", 4), ("endless", 2), ("pattern", 2)])
     sc: Dict = {"property": "C10", "machine": "eval_sim", "mode": mode, "salt": c.int(0, 1 << 30), "shared": [], "streams": []}
     if mode == "general":
         g = eval_gen.Gen(rng, dict(cfg, shared_p=0.0, rule_p=0.35))
@@ -152,6 +152,26 @@ def generate(rng, cfg: Dict) -> Dict:
             sel = [["var", c.int(0, nv - 1)]]
             shape = "entity"
         sc["queries"] = [{"q": "an", "shape": shape, "sel": sel, "conds": conds}]
+    elif mode == "pattern":
+        # pattern matching: entity_matching(T, stream)(attr=literal | item | match(T)(...))
+        n = c.int(1, 5)
+        items = _items(c, n, 0)
+        for it in items:
+            it["t"] = "P"
+            it["ref"] = c.pick(list(range(n))) if c.chance(0.85) else None
+        sc["domains"] = [{"id": 0, "kind": c.weighted([("gen", 4), ("list", 1)]), "items": items}]
+        sc["vars"] = []
+        kw = {}
+        for name in c.sample(["a", "b", "ref", "xs"], c.int(1, 3)):
+            if name in ("a", "b"):
+                kw[name] = ["lit", c.int(0, 3)]
+            elif name == "xs":
+                kw[name] = ["lit", c.pick([c.int(0, 3), [c.int(0, 3) for _ in range(c.int(1, 2))]])]
+            elif c.chance(0.5):
+                kw[name] = ["item", c.int(0, n - 1)]
+            else:
+                kw[name] = ["match", {"t": "P", "kw": {c.pick(["a", "b"]): ["lit", c.int(0, 3)]}}]
+        sc["queries"] = [{"q": "the" if c.chance(0.15) else "an", "pattern": {"t": "P", "dom": 0, "kw": kw}}]
     else:  # endless
         pattern = [c.int(0, 3) for _ in range(c.int(1, 4))]
         sc["domains"] = [{"id": 0, "kind": "inf", "t": "A", "pattern": pattern, "items": []}]
@@ -281,6 +301,12 @@ def execute(scenario: Dict) -> Dict:
         elig6[qi] = (plain and len(vs) >= 2 and distinct_doms and all(k == "gen" for k in kinds.values())
                      and not _has_tag([qd.get("conds", [])], ("or", "not", "flatten"))
                      and all(isinstance(s, list) and s[0] == "var" for s in qd["sel"]))
+    for qi, qd in enumerate(scenario["queries"]):
+        if qd.get("pattern") and qd.get("q") == "an":
+            # a pattern constrains the attributes of ONE variable: the demand rule of single-variable queries applies
+            dom = next((d for d in scenario["domains"] if d["id"] == qd["pattern"]["dom"]), None)
+            elig5[qi] = bool(dom) and dom["kind"] == "gen"
+            elig6[qi] = False
     pos = {}
     for d in scenario["domains"]:
         for i, it in enumerate(d["items"]):
